@@ -400,16 +400,19 @@ def report_rules(prog, run, rid_total, rid_footer, LEN):
                 else:
                     rs = [i for i, e in enumerate(ev) if e[0] == "reset"]
                     cp = [i for i, e in enumerate(ev) if e[0] == "capacity?"]
-                    if len(rs) != 1 or len(cp) != 1 or cp[0] > rs[0]:
-                        why.append("the capacity must be sampled once before the limit is reset once (%s)" % [e[0] for e in ev if e[0] in ("capacity?", "reset")])
+                    if len(rs) != 1:
+                        why.append("%d leaks were walked but the report is closed as %s (the write limit is reset %d times): the total of the report does not state the leaks walked" % (k, [ev[i][1] for i in adds][-1:], len(rs)))
+                    elif not [c_ for c_ in cp if c_ < rs[0]]:
+                        why.append("the capacity must be sampled before the limit is reset (%s)" % [e[0] for e in ev if e[0] in ("capacity?", "reset")])
                     else:
                         before, after = [ev[i] for i in adds if i < rs[0]], [ev[i] for i in adds if i > rs[0]]
                         for i_, (num, size, line, an) in enumerate(leaks):
                             mem = 70000 + 1000 * i_
                             mine = [e for e in before if mem in e[2]]
-                            if len(mine) != 1 or not {num, size, line, an, "file%d.cpp" % num} <= set(mine[0][2]):
+                            # (a full buffer drops the text anyway: listing a leak is then optional, counting it is not)
+                            if (len(mine) != 1 and not (full and not mine)) or (mine and not {num, size, line, an, "file%d.cpp" % num} <= set(mine[0][2])):
                                 why.append("leak #%d (allocation %d, %d bytes, file%d.cpp:%d, %s) is reported %d times / with other values %s" % (i_, num, size, num, line, an, len(mine), [e[2] for e in mine][:1]))
-                            if ("dump", mem, size) not in ev:
+                            if ("dump", mem, size) not in ev and not full:
                                 why.append("leak #%d: its content is not dumped with (memory, size)" % i_)
                         foot = [e for e in after if ints(e)]
                         if len(foot) != 1 or ints(foot[0]) != (k,):
